@@ -72,12 +72,19 @@ class FileWriter(BaseWriter):
         return self
 
     def disconnect(self, wait: bool = True) -> None:
-        """Close the file if it was opened by this writer."""
+        """Close the file if it was opened by this writer.
+
+        A file object provided by the caller is left open for its
+        owner, but the statements written so far are flushed to it.
+        """
 
         should_close = isinstance(self._output, str)
 
         if should_close and self._file is not None:
             self._file.close()
+        elif self._file is not None:
+            if not getattr(self._file, "closed", False):
+                self._file.flush()
 
         self._file = None
 
